@@ -338,7 +338,44 @@ def rule_d(ctx, out):
     C09.rule_e(ctx, out, modules=("sfs_generator.asm_contract", "sfs_generator.asm_json", "sfs_generator.parser_asm", "sfs_generator.asm_block"))
 
 
+def rule_e(ctx, out):
+    """Every constant keeps its numeric value regardless of spelling.  The plain-text parser is evaluated abstractly on one block per
+    spelling class of a pushed constant: PUSHn takes decimal or 0x-hexadecimal operands (leading zeros allowed), the generic PUSH
+    takes bare hexadecimal digits, PUSH0 is zero."""
+    from ..core.interp import ModuleInterp
+    from ..core.minieval import Unsupported, Raised
+    f = ctx.func(f"{P}.plain_instructions_to_asm_representation")
+    mi = ModuleInterp(ctx, max_steps=200000)
+    cases = [("PUSH1 10", 10, "decimal"), ("PUSH1 010", 10, "decimal-leading-zero"), ("PUSH2 0010", 10, "decimal-leading-zeros"), ("PUSH2 0100", 100, "decimal-leading-zero"),
+             ("PUSH1 0255", 255, "decimal-leading-zero"), ("PUSH1 09", 9, "decimal-leading-zero"), ("PUSH1 0x0a", 10, "hex-prefixed"), ("PUSH1 0x0A", 10, "hex-prefixed-uppercase"),
+             ("PUSH1 0xa", 10, "hex-prefixed"), ("PUSH2 0x0100", 256, "hex-prefixed-leading-zero"), ("PUSH a", 10, "generic-hex"), ("PUSH 0a", 10, "generic-hex-leading-zero"),
+             ("PUSH 10", 16, "generic-hex"), ("PUSH 010", 16, "generic-hex-leading-zero"), ("PUSH1 0", 0, "zero"), ("PUSH1 00", 0, "zero"), ("PUSH1 0x0", 0, "zero"),
+             ("PUSH1 0x00", 0, "zero"), ("PUSH0", 0, "push0"), ("PUSH 0", 0, "zero"), ("PUSH32 115792089237316195423570985008687907853269984665640564039457584007913129639935", 2 ** 256 - 1, "decimal-max"),
+             ("PUSH32 0xffffffffffffffffffffffffffffffffffffffffffffffffffffffffffffffff", 2 ** 256 - 1, "hex-max")]
+    for text, number, cls in cases:
+        try:
+            items = mi.call(f, text + " ADD")
+        except Raised as e:
+            out.bad(f"plain-constant:{cls}:raises", f"the plain-text parser raises {e.what} on `{text}`", where(f))
+            continue
+        except Unsupported as e:
+            raise AnalysisError(f"plain_instructions_to_asm_representation: cannot evaluate abstractly on `{text}`: {e}")
+        ok = isinstance(items, list) and len(items) == 2 and items[0].get("name") == "PUSH" and items[1].get("name") == "ADD"
+        got = None
+        if ok:
+            try:
+                got = int(str(items[0].get("value")), 16)
+            except ValueError:
+                ok = False
+        if ok and got == number:
+            out.ok({"text": text[:40], "value": items[0]["value"][:20], "class": cls})
+        else:
+            out.bad(f"plain-constant:{cls}", f"`{text[:50]}` is parsed as {items[0] if isinstance(items, list) and items else items!r}: the constant is {number}, the item holds "
+                    f"{got if got is not None else 'no hexadecimal value'}", where(f), {"text": text, "parsed": repr(items)[:200]})
+
+
 RULES = [
+    ("C15.e", "plain-text constants keep their value in every spelling", 20, rule_e),
     ("C15.d", "per-section containers of the serialiser are fresh", 2, rule_d),
     ("C15.a", "key agreement between parser and serialiser at every level", 25, rule_a),
     ("C15.b", "item name/value change only through the PUSH0 spelling", 5, rule_b),
